@@ -355,9 +355,9 @@ pub fn spec_strategy(p: &Profile, nthreads_hint: usize) -> BoxedStrategy<Spec> {
     let policy = if p.burst {
         prop_oneof![(Just(0u8), prop_oneof![Just(1u8), Just(2u8), Just(4u8)]).prop_map(|(r, k)| Policy::Burst { reader: r, k })].boxed()
     } else {
-        let park = prop_oneof![3 => Just(Role::Storage), 2 => Just(Role::FastSlot), 1 => Just(Role::HelpSlot), 1 => Just(Role::Control), 1 => Just(Role::Strong), 1 => Just(Role::ActiveAddr)];
-        let wake = prop_oneof![3 => Just(Role::ActiveWriters), 2 => Just(Role::Storage), 1 => Just(Role::FastSlot), 1 => Just(Role::Control), 1 => Just(Role::HelpSlot)];
-        let stall = (0..nth, park, 1u8..4, wake, 1u8..5, 1u8..7).prop_map(|(victim, park_role, park_nth, wake_role, wake_nth, run)| Policy::Stall { victim, park_role, park_nth, wake_role, wake_nth, run });
+        let park = prop_oneof![3 => Just(Role::Storage), 2 => Just(Role::FastSlot), 1 => Just(Role::HelpSlot), 2 => Just(Role::Control), 1 => Just(Role::Strong), 1 => Just(Role::ActiveAddr), 2 => Just(Role::ActiveWriters), 1 => Just(Role::InUse)];
+        let wake = prop_oneof![3 => Just(Role::ActiveWriters), 2 => Just(Role::Storage), 1 => Just(Role::FastSlot), 2 => Just(Role::Control), 1 => Just(Role::HelpSlot), 2 => Just(Role::InUse)];
+        let stall = (0..nth, park, 1u8..4, wake, 1u8..9, 1u8..7).prop_map(|(victim, park_role, park_nth, wake_role, wake_nth, run)| Policy::Stall { victim, park_role, park_nth, wake_role, wake_nth, run });
         prop_oneof![
             5 => prop_oneof![Just(16u8), Just(32u8), Just(64u8), Just(128u8)].prop_map(|p| Policy::Rand { p }),
             2 => (1u8..5, 40u16..600).prop_map(|(d, len)| Policy::Pct { d, len }),
